@@ -43,7 +43,7 @@ def harness_error(msg):
 
 
 def sh(cmd, cwd=None, env=None, timeout=None, check=True):
-    p = subprocess.run(cmd, cwd=cwd, env=env or goenv(), stdout=subprocess.PIPE, stderr=subprocess.STDOUT, text=True, timeout=timeout)
+    p = subprocess.run(cmd, cwd=cwd, env=env or goenv(), stdout=subprocess.PIPE, stderr=subprocess.STDOUT, text=True, errors="replace", timeout=timeout)
     if check and p.returncode != 0:
         raise HarnessError("command failed (%d): %s\n%s" % (p.returncode, " ".join(cmd), p.stdout[-6000:]))
     return p.stdout
@@ -104,7 +104,7 @@ def run_worker(binary, args, timeout, cwd=None, env=None):
     if env:
         e.update(env)
     try:
-        p = subprocess.run([binary] + args, cwd=cwd, env=e, stdout=subprocess.PIPE, stderr=subprocess.PIPE, text=True, timeout=timeout)
+        p = subprocess.run([binary] + args, cwd=cwd, env=e, stdout=subprocess.PIPE, stderr=subprocess.PIPE, text=True, errors="replace", timeout=timeout)
     except subprocess.TimeoutExpired as ex:
         return {"error": "worker timeout after %ds: %s" % (timeout, " ".join(args)), "stdout": (ex.stdout or b"")[-2000:] if ex.stdout else ""}
     results = []
